@@ -147,3 +147,37 @@ Proof.
   destruct Ho' as [-> | [_ ->]]; [|destruct Hx]. destruct Hx as [<- | []]. eauto.
 Qed.
 Print Assumptions C10_in_flight_retransmission_not_forwarded.
+
+(* "supersedes the old one, whose late reply is then not delivered", over histories: in every reachable state, for a
+   request outstanding at server s under identifier i that came from client c, superseding it (removeclientrq on its
+   cache entry, what addclientrq does for a new request with the same Identifier) empties that server slot, and ANY
+   packet the server then sends with identifier i -- the late reply -- finds no holder: the reply handler emits
+   nothing but its return value (nothing on any client's reply queue) *)
+Lemma slot_of_some_bounds st s i h : slot_of st s i = Some h ->
+  (s < length (st_servers st))%nat /\ (N.to_nat i < length (s_slots (get_server st s)))%nat.
+Proof.
+  unfold slot_of, get_slot, get_server. intro E. split.
+  - destruct (Nat.lt_ge_cases s (length (st_servers st))) as [L|L]; [exact L|].
+    rewrite (nth_overflow _ _ L) in E. cbn in E. destruct (N.to_nat i); discriminate.
+  - destruct (Nat.lt_ge_cases (N.to_nat i) (length (s_slots (nth s (st_servers st) dummy_server)))) as [L|L]; [exact L|].
+    rewrite (nth_overflow _ _ L) in E. discriminate.
+Qed.
+
+Theorem C10_superseded_late_reply_not_delivered : forall md5, (forall x, length (md5 x) = 16%nat) -> (forall x, wf_bytes (md5 x) = true) ->
+  forall rx cfg nclients nservers ops s i h r c, cfg_ok cfg nservers -> Forall (op_ok nclients nservers) ops ->
+  let st := fold_left (hstep md5 rx cfg) ops (init_state nclients nservers) in
+  slot_of st s i = Some h -> get_rq st h = Some r -> rq_from r = Some c ->
+  let st' := removeclientrq st c (rq_rqid r) in
+  slot_of st' s i = None /\
+  forall fs buf now rnd, nth 1 buf 0 = i -> exists ret, snd (replyh md5 rx cfg fs st' s buf now rnd) = [ORet ret].
+Proof.
+  intros md5 L W rx cfg nc ns ops s i h r c Hc Ho st E G F st'.
+  assert (Fu : Full nc ns st) by (apply (Full_history md5 L W rx cfg nc ns Hc); [exact Ho | apply Full_init]).
+  clearbody st. destruct Fu as (_ & Sl & _ & I3).
+  pose proof (I3 _ _ _ _ _ E G F) as En. destruct (Sl _ _ _ _ E G) as (To & Ni).
+  destruct (slot_of_some_bounds _ _ _ _ E) as (B1 & B2).
+  assert (N0 : slot_of st' s i = None).
+  { subst st'. rewrite <- Ni in *. exact (removeclientrq_cancels st c (rq_rqid r) h r s En G To E B1 B2). }
+  split; [exact N0|]. intros fs buf now rnd <-. exact (replyh_unmatched md5 rx cfg fs st' s buf now rnd N0).
+Qed.
+Print Assumptions C10_superseded_late_reply_not_delivered.
